@@ -26,7 +26,11 @@ def handle (op real : String) : Verdict := Id.run do
       | 'u' =>
         match arg.splitOn ":" with
         | [i, hx] =>
-          let raw := bytesToString ((unhex hx).getD [])
+          -- the statement may end in a terminator: `USE ks ;` names `ks` (the statement grammar is C09's subject)
+          let raw0 := bytesToString ((unhex hx).getD [])
+          let trimR (x : String) : String := (x.dropEndWhile (· == ' ')).toString
+          let raw1 := trimR raw0
+          let raw := if raw1.endsWith ";" then trimR (raw1.dropEnd 1).toString else raw1
           let (r, s') := useKs missing s (i.toNat?.getD 0) raw
           s := s'
           match r with
